@@ -106,7 +106,11 @@ impl SemanticState {
                     if let ("address", [grammar::Expr::IntLiteral(addr)]) =
                         (ident.as_str(), &exprs[..])
                     {
-                        address = Some(*addr as usize);
+                        address = Some(usize::try_from(*addr).with_context(|| {
+                            format!(
+                                "failed to convert `address` attribute into usize for extern value `{name}` in module `{path}`"
+                            )
+                        })?);
                     }
                 }
 
